@@ -23,7 +23,7 @@ try:
     for name in names:
         pid = name.split("_")[0]
         if ":" in name: name, pid = name.split(":")     # NAME:PROP = run another property's check on this change
-        d = f"/verif/seeded/{name}"
+        d = os.path.join(os.environ.get("ISO_DIR", "/verif/seeded"), name)
         sh(f"git -C {R} checkout -- .")
         a = sh(f"git -C {R} apply {d}/patch.diff")
         if a.returncode != 0:
@@ -42,7 +42,8 @@ finally:
         sh(f"git -C /repo worktree remove --force {R}"); sh("git -C /repo worktree prune")
         shutil.rmtree(ROOT, ignore_errors=True)
     old = {}
-    try: old = {r[0]: r for r in json.load(open("/verif/work/seeded_results_iso.json"))}
+    RES = os.environ.get("ISO_RESULTS", "/verif/work/seeded_results_iso.json")
+    try: old = {r[0]: r for r in json.load(open(RES))}
     except Exception: pass
     for r in rows: old[r[0]] = list(r)
-    json.dump(sorted(old.values()), open("/verif/work/seeded_results_iso.json", "w"), indent=1)
+    json.dump(sorted(old.values()), open(RES, "w"), indent=1)
